@@ -8,6 +8,7 @@ def text_edit(old, new):
         return src.replace(old, new, 1) if old in src else None
     return edit
 MUTANTS = [
+    Mutant('bootstrap_vstack', 'src/pharmpy/tools/bootstrap/results.py', text_edit("    df = pd.DataFrame()\n    for res in results:\n        df = pd.concat([df, res.parameter_estimates], axis=1, ignore_index=True, sort=False)\n    df = df.T\n    df = df.reindex(results[0].parameter_estimates.index, axis=1)", "    columns = results[0].parameter_estimates.index\n    df = pd.DataFrame(np.vstack([res.parameter_estimates for res in results]), columns=columns)"), 'N8', 'replicates combined by position'),
     Mutant('lrt_cutoff_from_base', 'src/pharmpy/tools/run.py', text_edit("co = 0.05 if lrt_df(parent_model, model) >= 0 else 0.01", "co = 0.05 if lrt_df(base_model, model) >= 0 else 0.01"), 'N6', 'direction taken from another pair'),
     Mutant('bic_sigma_uncounted', 'src/pharmpy/modeling/results.py', text_edit("            fixedpars -= cursymbols\n            randpars |= cursymbols", "            fixedpars -= cursymbols\n            randpars |= param_symbols"), 'N7', 'sigma in neither group'),
     Mutant('aic_factor', R, edit_node('calculate_aic', lambda n, seg: isinstance(n, ast.Return), lambda seg: 'return likelihood + len(parameters)'), 'N1', 'factor 2 dropped'),
